@@ -5,3 +5,8 @@ pub struct Mutex<T> { _p: std::marker::PhantomData<T> }
 #[verifier::external_body]
 #[verifier::reject_recursive_types(T)]
 pub struct RwLock<T> { _p: std::marker::PhantomData<T> }
+impl<T> Mutex<T> {
+    /// acquire = havoc: the protected value is whatever the lock invariant allows (none assumed here)
+    #[verifier::external_body]
+    pub fn lock(&self) -> (g: &mut T) { unimplemented!() }
+}
